@@ -3,10 +3,12 @@
 //!
 //!   queue <cap|u> <handler 0|1> <ops> => <obs>
 //!     ops : comma list of  e<h>:<hex> emit on handle h | c<h> clone | d<h> drop | f<h> flush |
-//!           s<h> read counters | k finish-ok | x<kind> finish-err | p finish-panic
+//!           s<h> read counters | t<h> read stats() through the queuing sink | k finish-ok |
+//!           z finish-ok reporting 0 bytes | x<kind> finish-err | p finish-panic
 //!           (finish = let the wrapped sink return from the metric it is processing)
 //!     obs : `;` list of `<res>|<events>` per op
 //!       res    : ok<n> | err<k> | ok | idle | nohandle | blocked | panic | skipped | S<sub>.<drn>.<queued>.<panics>
+//!                | K<bytes_sent>.<packets_sent>.<bytes_dropped>.<packets_dropped>
 //!       events : `-` or comma list, in arrival order, of
 //!                E<hex>:<w|c>   the wrapped sink was entered with this metric (worker / caller thread)
 //!                H<kind>:<tok>:<w|c>  the error handler was invoked
@@ -41,6 +43,7 @@ enum Ev {
 #[derive(Clone, Copy, Debug)]
 enum Out {
     Ok,
+    OkZero,
     Err(usize, u64),
     Panic,
 }
@@ -55,6 +58,7 @@ impl MetricSink for Gated {
         let _ = self.ev.send(Ev::Enter(m.to_string(), std::thread::current().id()));
         match self.go.recv() {
             Ok(Out::Ok) | Err(_) => Ok(m.len()),
+            Ok(Out::OkZero) => Ok(0),
             Ok(Out::Err(k, tok)) => Err(tok_err(k, tok)),
             Ok(Out::Panic) => panic!("scripted panic"),
         }
@@ -62,6 +66,10 @@ impl MetricSink for Gated {
     fn flush(&self) -> io::Result<()> {
         let _ = self.ev.send(Ev::Flushed);
         Ok(())
+    }
+    /// fixed figures: the queuing sink must report exactly these, whatever happened to its queue
+    fn stats(&self) -> cadence::SinkStats {
+        cadence::SinkStats { bytes_sent: 70, packets_sent: 3, bytes_dropped: 50, packets_dropped: 2 }
     }
 }
 
@@ -82,8 +90,11 @@ fn mine(count: u64) -> bool {
     count % SHARD_N.load(Ordering::Relaxed) == SHARD_K.load(Ordering::Relaxed)
 }
 
+/// producer-side calls that did not return within the 2 s watchdog
+static BLOCKED: AtomicU64 = AtomicU64::new(0);
+
 fn too_many_timeouts() -> bool {
-    TIMEOUTS.load(Ordering::Relaxed) > 15
+    TIMEOUTS.load(Ordering::Relaxed) > 15 || BLOCKED.load(Ordering::Relaxed) > 5
 }
 
 fn timeout_ms() -> u64 {
@@ -96,6 +107,7 @@ enum Cmd {
     Drop(usize),
     Flush(usize),
     Stats(usize, u64),
+    SinkStats(usize),
     Quit,
 }
 
@@ -147,6 +159,13 @@ fn caller(q0: QueuingMetricSink, rx: Receiver<Cmd>, tx: Sender<String>) {
                     }
                     format!("S{}.{}.{}.{}", q.submitted(), q.drained(), q.queued(), q.panics())
                 }
+            },
+            Cmd::SinkStats(h) => match handles.get(h).and_then(|x| x.as_ref()) {
+                None => "nohandle".to_string(),
+                Some(q) => match catch_unwind(AssertUnwindSafe(|| q.stats())) {
+                    Ok(s) => format!("K{}.{}.{}.{}", s.bytes_sent, s.packets_sent, s.bytes_dropped, s.packets_dropped),
+                    Err(_) => "panic".to_string(),
+                },
             },
             Cmd::Quit => break,
         };
@@ -307,6 +326,7 @@ impl Run {
             Ok(r) => r,
             Err(_) => {
                 self.blocked = true;
+                BLOCKED.fetch_add(1, Ordering::Relaxed);
                 "blocked".to_string()
             }
         }
@@ -350,13 +370,18 @@ impl Run {
                 let want = self.panics;
                 self.producer(Cmd::Stats(h, want))
             }
-            "k" | "x" | "p" => {
+            "t" => {
+                let h: usize = rest.parse().unwrap_or(usize::MAX);
+                self.producer(Cmd::SinkStats(h))
+            }
+            "k" | "x" | "p" | "z" => {
                 if !self.inside {
                     "idle".to_string()
                 } else {
                     self.finishes += 1;
                     let o = match c {
                         "k" => Out::Ok,
+                        "z" => Out::OkZero,
                         "x" => {
                             if self.handler {
                                 self.pending_handler = true;
@@ -726,10 +751,11 @@ fn random_cases(out: &mut impl Write, rng: &mut Rng, n: usize, maxops: usize, co
             let alive: Vec<usize> = (0..live.len()).filter(|i| live[*i]).collect();
             let r = rng.below(100);
             if r < finish_bias {
-                ops.push(match rng.below(5) {
+                ops.push(match rng.below(6) {
                     0 | 1 => "k".to_string(),
                     2 => format!("x{}", rng.below(16)),
                     3 => "p".to_string(),
+                    4 => "z".to_string(),
                     _ => "k".to_string(),
                 });
             } else if alive.is_empty() {
@@ -752,6 +778,8 @@ fn random_cases(out: &mut impl Write, rng: &mut Rng, n: usize, maxops: usize, co
                 ops.push(format!("s{}", rng.pick(&alive)));
             } else if r < finish_bias + 69 {
                 ops.push(format!("f{}", rng.pick(&alive)));
+            } else if r < finish_bias + 71 {
+                ops.push(format!("t{}", rng.pick(&alive)));
             } else {
                 let h = *rng.pick(&alive);
                 seq += 1;
@@ -770,7 +798,9 @@ fn backpressure(out: &mut impl Write, count: &mut u64) {
             ops.push(format!("e0:{}", mname(0, i)));
         }
         ops.push("s0".to_string());
+        ops.push("t0".to_string());
         ops.push("x3".to_string());
+        ops.push("z".to_string());
         ops.push("p".to_string());
         ops.push(format!("e0:{}", mname(0, 99)));
         ops.push("s0".to_string());
